@@ -50,7 +50,13 @@ static RegRef regref(const V &yt, const V &yp) {
   ld dmu = u * amax;
   ld dtot = u * sstot + 2 * dmu * sqrtl(sstot * n) + n * dmu * dmu;
   r.tol_r2 = (r.tol_mse * n) / sstot + (ssreg / sstot) * (dtot / sstot) + 8 * EPS * (1 + ssreg / sstot) + 1e-300L;
-  ld dsyi = u * sayi + dmu * n * amax, dsxi = u * saxi + dmu * n * amax;
+  // BIAS = |1 - slope|, slope = sum (yp - c)(yt - mean) / sum (yt - mean)^2 for ANY c: a sound evaluation centres both factors and
+  // carries the rounding of each centred value (eps*amax + dmu) times the size of its partner - first order in level/spread,
+  // not the (level/spread)^2 of the uncentred products
+  (void)sayi; (void)saxi;
+  ld dc = 4 * EPS * amax + dmu, sdev = 0, sprod = 0;
+  for (size_t i = 0; i < yt.size(); i++) if (!is_missing(yt[i])) { sdev += fabsl(yt[i] - mu) + fabsl(yp[i] - mu); sprod += fabsl((yp[i] - mu) * (yt[i] - mu)); }
+  ld dsyi = dc * sdev + u * sprod, dsxi = dc * 2 * sdev + u * sstot;
   r.tol_bias = dsyi / fabsl(sxi) + fabsl(syi / sxi) * dsxi / fabsl(sxi) + 8 * EPS * (1 + fabsl(syi / sxi)) + 1e-300L;
   return r;
 }
@@ -182,6 +188,14 @@ static void pred_cls(const Case &c) {
     VF_CHECK((int)aucm->row == 1 && (int)aucm->col == 1 && (int)apm->row == 1 && (int)apm->col == 1, "PLSDiscriminantAnalysisStatistics table shapes");
     VF_CLOSE(aucm->data[0][0], auc, 1e-15L, "PLSDiscriminantAnalysisStatistics AUC vs ROC()");
     VF_CLOSE(apm->data[0][0], ap, 1e-15L, "PLSDiscriminantAnalysisStatistics AP vs PrecisionRecall()");
+    // the curves stored per latent variable are the curves ROC() / PrecisionRecall() return: n+1 points, from (0,0) to (1,1) / recall 1
+    VF_CHECK(troc->order == 1 && tpr->order == 1, "PLSDiscriminantAnalysisStatistics stored %zu ROC / %zu PR blocks for one latent variable", troc->order, tpr->order);
+    VF_CHECK((int)troc->m[0]->row == n + 1 && (int)troc->m[0]->col == 2, "PLSDiscriminantAnalysisStatistics: stored ROC curve has %s points for %d objects (ROC() returns %d)", dims(troc->m[0]).c_str(), n, n + 1);
+    VF_CHECK((int)tpr->m[0]->row == n + 1 && (int)tpr->m[0]->col == 2, "PLSDiscriminantAnalysisStatistics: stored PR curve has %s points for %d objects", dims(tpr->m[0]).c_str(), n);
+    for (int i = 0; i <= n; i++) {
+      VF_CHECK(troc->m[0]->data[i][0] == (double)roc(i, 0) && troc->m[0]->data[i][1] == (double)roc(i, 1), "PLSDiscriminantAnalysisStatistics: stored ROC point %d differs from ROC()", i);
+      VF_CHECK(tpr->m[0]->data[i][0] == pr->data[i][0] && tpr->m[0]->data[i][1] == pr->data[i][1], "PLSDiscriminantAnalysisStatistics: stored PR point %d differs from PrecisionRecall()", i);
+    }
     DelMatrix(&myt); DelMatrix(&mys); DelMatrix(&aucm); DelMatrix(&apm); DelTensor(&troc); DelTensor(&tpr);
     DelDVector(&dy); DelDVector(&ds); DelMatrix(&pr);
   }
